@@ -8,6 +8,7 @@ pub mod c02;
 pub mod c03;
 pub mod c04;
 pub mod c05;
+pub mod c06;
 pub mod c08;
 pub mod c09;
 pub mod c10;
@@ -20,6 +21,7 @@ pub fn n_cases(ctx: &Ctx) -> u64 {
         "C03" => c03::n_cases(ctx),
         "C04" => c04::n_cases(ctx),
         "C05" => c05::n_cases(ctx),
+        "C06" => c06::n_cases(ctx),
         "C08" => c08::n_cases(ctx),
         "C09" => c09::n_cases(ctx),
         "C10" => c10::n_cases(ctx),
@@ -35,6 +37,7 @@ pub fn run_case(ctx: &Ctx, idx: u64) -> Vec<CaseOut> {
         "C03" => c03::run_case(ctx, idx),
         "C04" => c04::run_case(ctx, idx),
         "C05" => c05::run_case(ctx, idx),
+        "C06" => c06::run_case(ctx, idx),
         "C08" => c08::run_case(ctx, idx),
         "C09" => c09::run_case(ctx, idx),
         "C10" => c10::run_case(ctx, idx),
@@ -62,6 +65,7 @@ pub fn describe(ctx: &Ctx, idx: u64) -> String {
                 format!("{} fam={} len={} bias={:#x}", c.spec.desc(), c.fam.name(), c.len, c.bias),
             )
         }
+        "C06" => c06::describe(ctx, idx),
         _ => (String::new(), String::new(), "crash".to_string(), format!("case {idx}")),
     };
     crate::util::Obj::new()
